@@ -302,7 +302,15 @@ func (s *State) Import(state types.AppState, version string) error {
 	}
 	s.App.SetReward(reward, safeReward)
 	s.App.SetMaxGas(state.MaxGas)
-	s.App.SetCoinsCount(uint32(len(state.Coins)))
+	// the counter hands out the next coin id: it must not run into an id that the genesis already uses
+	// (a genesis may number its coins with gaps)
+	coinsCount := uint32(len(state.Coins))
+	for _, c := range state.Coins {
+		if uint32(c.ID) > coinsCount {
+			coinsCount = uint32(c.ID)
+		}
+	}
+	s.App.SetCoinsCount(coinsCount)
 
 	totalSlash := helpers.StringToBigInt(state.TotalSlashed)
 	s.App.SetTotalSlashed(totalSlash)
